@@ -14,6 +14,8 @@ import (
 	"strings"
 	"time"
 
+	"google.golang.org/protobuf/encoding/prototext"
+	"google.golang.org/protobuf/proto"
 	corev1 "k8s.io/api/core/v1"
 	metav1 "k8s.io/apimachinery/pkg/apis/meta/v1"
 	"k8s.io/apimachinery/pkg/types"
@@ -28,7 +30,11 @@ import (
 	"github.com/istio-ecosystem/authservice/internal/server"
 )
 
-func c19Rotation(r *Run) {
+func c19Rotation(r *Run) { systemRotation(r, "[C19]") }
+
+// systemRotation is also part of C04 (the exchange carries the client's CURRENT credentials) and of C08 (a reconcile must
+// leave chain selection alone: the chain keeps its criterion, a request that does not satisfy it is still unmatched).
+func systemRotation(r *Run, tag string) {
 	for round := 0; round < scale(r, 2, 10) && r.unknownViolations() == 0; round++ {
 		ctx, cancel := context.WithCancel(context.Background())
 		idp := newFakeIDP()
@@ -36,7 +42,21 @@ func c19Rotation(r *Run) {
 			TokenUri: idp.srv.URL + "/token", Scopes: []string{"openid"}, IdToken: &oidcv1.TokenConfig{Header: "authorization", Preamble: "Bearer"},
 			JwksConfig:         &oidcv1.OIDCConfig_Jwks{Jwks: keys().doc},
 			ClientSecretConfig: &oidcv1.OIDCConfig_ClientSecretRef{ClientSecretRef: &oidcv1.OIDCConfig_SecretReference{Name: "sec"}}}
-		cfg := &configv1.Config{Chains: []*configv1.FilterChain{{Name: "c", Filters: []*configv1.Filter{{Type: &configv1.Filter_Oidc{Oidc: oc}}}}}}
+		cfg := &configv1.Config{Chains: []*configv1.FilterChain{{Name: "c", Match: &configv1.Match{Header: "X-App", Criteria: &configv1.Match_Equality{Equality: "yes"}},
+			Filters: []*configv1.Filter{{Type: &configv1.Filter_Oidc{Oidc: oc}}}}}}
+		// everything but the client secret, as loaded: a reconcile may change nothing else
+		masked := func() string {
+			c := proto.Clone(cfg).(*configv1.Config)
+			for _, ch := range c.Chains {
+				for _, f := range ch.Filters {
+					if o := f.GetOidc(); o != nil {
+						o.ClientSecretConfig = nil
+					}
+				}
+			}
+			return prototext.Format(c)
+		}
+		before := masked()
 		cl := fake.NewClientBuilder().WithObjects(&corev1.Secret{ObjectMeta: metav1.ObjectMeta{Namespace: "ns", Name: "sec"}, Data: map[string][]byte{"client-secret": []byte("secret-v1")}}).Build()
 		sc, err := k8s.NewSecretControllerForVerif(cfg, "ns", cl)
 		must(err)
@@ -47,13 +67,17 @@ func c19Rotation(r *Run) {
 			s.Data["client-secret"] = []byte(v)
 			must(cl.Update(ctx, s))
 			_, _ = sc.Reconcile(ctx, ctrl.Request{NamespacedName: key})
+			if now := masked(); now != before {
+				r.Violate(tag+" a reconcile of the client Secret changed the configuration beyond the client secret (chains, criteria, filters or other OIDC settings)",
+					map[string]any{"before": before, "after": now, "secret_value": v})
+			}
 		}
 		_, _ = sc.Reconcile(ctx, ctrl.Request{NamespacedName: key})
 		fac := oidc.NewSessionStoreFactory(cfg)
 		must(fac.PreRun())
 		filter := server.NewExtAuthZFilter(cfg, internal.NewTLSConfigPool(ctx), staticJWKS{}, fac)
 		check := func(path, cookie string) (string, string, int) {
-			h := map[string]string{}
+			h := map[string]string{"x-app": "yes"}
 			if cookie != "" {
 				h["cookie"] = cookie
 			}
@@ -77,8 +101,24 @@ func c19Rotation(r *Run) {
 			return "UNREADABLE:" + rec.Auth
 		}
 		fail := func(what string, extra map[string]any) {
-			r.Violate("[C19] "+what, extra)
+			r.Violate(tag+" "+what, extra)
 		}
+		// the chain's criterion (x-app: yes) keeps deciding who is judged by it: a request that does not satisfy it is
+		// unmatched - denied, and NOT sent to this chain's provider - before and after every reconcile
+		unmatchedProbe := func(when string) {
+			for _, h := range []map[string]string{{}, {"x-app": "no"}} {
+				resp, err := filter.Check(context.Background(), httpReq("https", "app.example.com", "/app", "", h))
+				if err != nil || resp == nil {
+					continue
+				}
+				loc, _ := hdrValue(resp.GetDeniedResponse().GetHeaders(), "location")
+				if resp.GetStatus().GetCode() != 7 || loc != "" {
+					r.Violate(tag+" a request that does not satisfy the chain's criterion was judged by that chain "+when+" (unmatched requests must be denied as unmatched)",
+						map[string]any{"headers": h, "answer": showResp(resp, nil)})
+				}
+			}
+		}
+		unmatchedProbe("before any rotation")
 		// 1. a request is served while the Secret holds v1 (whatever the filter builds on first use is built now)
 		loc, sck, _ := check("/app", "")
 		u, _ := url.Parse(loc)
@@ -92,6 +132,7 @@ func c19Rotation(r *Run) {
 		cookie := cs[0].Name + "=" + cs[0].Value
 		// 2. the Secret is rotated; 3. the code exchange must authenticate with the new value
 		rotate("secret-v2")
+		unmatchedProbe("after a reconcile of the client Secret")
 		idp.set(idpAnswer{Kind: "body", TokenType: "Bearer", Access: "at", Refresh: "rt-1", ExpiresIn: i64(1),
 			ID: mintToken(tokSpec{Mode: "good", Exp: time.Now().Unix() + 1, Aud: "the-client", Nonce: u.Query().Get("nonce"), Sub: "u", Extra: fmt.Sprint("c19-", round)})})
 		idp.take()
